@@ -324,6 +324,9 @@ func c03Run(bin, work string, c *c03Case, rep *kit.Report) (vs []c03Viol, inconc
 		}
 		// ---- always: the server survives
 		if !srv.Alive() {
+			if srv.KilledFromOutside() {
+				return nil, fmt.Sprintf("attempt %d: the server was SIGKILLed from outside the check (no trace in its log)", ai)
+			}
 			crash := srv.Crashed()
 			site := "unknown"
 			for _, ln := range strings.Split(crash, "\n") {
